@@ -319,6 +319,9 @@ for text, nm in (("CH4O", "methanol"), ("C2H6O@0.789", "ethanol"), ("H2O@1", "wa
     try:
         f, g = formula(text, name=nm), formula(text)
         stats["named"] += 1
+        if text in ("CH4O", "H2O@1") and not (f == f.hill):
+            fail("C19:ordered-not-own-hill", "f == f.hill is False for f = formula(%r, name=%r), written in Hill order" % (text, nm),
+                 input="formula(%r, name=%r)" % (text, nm))
         if str(f.hill) != str(g.hill) or f.hill != g.hill:
             fail("C19:hill-of-named-formula", "formula(%r, name=%r).hill prints %r, formula(%r).hill prints %r (equal atom counts have equal "
                  "Hill forms)" % (text, nm, str(f.hill), text, str(g.hill)), input="formula(%r, name=%r).hill" % (text, nm))
